@@ -47,6 +47,13 @@ const (
 	TagPassword     = 554
 )
 
+// NewOptsWithSequenceReset is NewOpts plus the optional SequenceReset builder.
+func NewOptsWithSequenceReset() *session.Opts {
+	o := NewOpts()
+	o.MessageBuilders.SequenceResetBuilder = fixgen.SequenceReset{}.New()
+	return o
+}
+
 // NewOpts wires a session the way the repository's tests and examples do.
 //
 //go:norace
@@ -192,7 +199,7 @@ type AccCfg struct {
 	LogonTimeout time.Duration
 	CloseTimeout time.Duration
 	Approve      func(*session.LogonSettings) error
-	Store        *Store // shared by every session, as in the repository's tests
+	Store        *Store          // shared by every session, as in the repository's tests
 	RawStore     *memory.Storage // if set: the bundled store itself, without the harness wrapper
 	OnSession    func(as *AccSession)
 	Opts         func() *session.Opts
